@@ -2,6 +2,7 @@ package keeper
 
 import (
 	"context"
+	"fmt"
 	"strconv"
 
 	cryptotypes "github.com/cosmos/cosmos-sdk/crypto/types"
@@ -75,7 +76,10 @@ func (k msgServer) RevokeCertificate(goCtx context.Context, msg *types.MsgRevoke
 	revokeEvent := sdk.NewEvent(
 		types.EventTypeRevokeCertificate,
 		sdk.NewAttribute("revoker", msg.Revoker),
-		sdk.NewAttribute("revoked_certificate", certificate.String()),
+		// the generated String() panics on the certificate's Any content (text marshalling of
+		// the cached value), which made every otherwise valid revocation fail
+		sdk.NewAttribute("revoked_certificate", fmt.Sprintf("certificate_id:%d content:%q certifier:%q",
+			certificate.CertificateId, certificate.GetContentString(), certificate.Certifier)),
 		sdk.NewAttribute("revoke_description", msg.Description),
 	)
 	ctx.EventManager().EmitEvent(revokeEvent)
